@@ -132,6 +132,44 @@ end Jomini.JsonSpec
 
 namespace Jomini.JsonSpec
 
+/-! ### well-formed UTF-8 (Unicode Table 3-7 / RFC 3629) as a DFA -/
+
+inductive U8St where
+  | acc | c1 | c2 | e0 | ed | c3 | f0 | f4
+  deriving DecidableEq, Repr
+
+def isCont8 (b : UInt8) : Bool := decide (128 ≤ b.toNat) && decide (b.toNat < 192)
+
+def u8Step : U8St → UInt8 → Option U8St
+  | .acc, b =>
+    if b.toNat < 128 then some .acc
+    else if 0xC2 ≤ b.toNat ∧ b.toNat ≤ 0xDF then some .c1
+    else if b.toNat = 0xE0 then some .e0
+    else if b.toNat = 0xED then some .ed
+    else if 0xE1 ≤ b.toNat ∧ b.toNat ≤ 0xEF then some .c2
+    else if b.toNat = 0xF0 then some .f0
+    else if b.toNat = 0xF4 then some .f4
+    else if 0xF1 ≤ b.toNat ∧ b.toNat ≤ 0xF3 then some .c3
+    else none
+  | .c1, b => if isCont8 b then some .acc else none
+  | .c2, b => if isCont8 b then some .c1 else none
+  | .e0, b => if 0xA0 ≤ b.toNat ∧ b.toNat ≤ 0xBF then some .c1 else none
+  | .ed, b => if 0x80 ≤ b.toNat ∧ b.toNat ≤ 0x9F then some .c1 else none
+  | .c3, b => if isCont8 b then some .c2 else none
+  | .f0, b => if 0x90 ≤ b.toNat ∧ b.toNat ≤ 0xBF then some .c2 else none
+  | .f4, b => if 0x80 ≤ b.toNat ∧ b.toNat ≤ 0x8F then some .c2 else none
+
+def u8Run : Bytes → U8St → Option U8St
+  | [], s => some s
+  | b :: bs, s =>
+    match u8Step s b with
+    | none => none
+    | some s' => u8Run bs s'
+
+/-- the byte string is well-formed UTF-8 (no overlong forms, no surrogates, ≤ U+10FFFF,
+no truncated sequence) -/
+def validUtf8 (bs : Bytes) : Bool := u8Run bs .acc == some .acc
+
 /-! ### grouping duplicate keys -/
 
 /-- Stable grouping: each distinct key once, in order of first appearance, as
